@@ -75,7 +75,7 @@ def gulp_run(c):
         ps = [Potential(p["a"], p["b"], ApiTracer(p["fid"], True, "lammps")) for p in c["pots"]]
         s = io.StringIO()
         if c["route"] == "class":
-            GULP_PairTabulation(ps, float(Fr(c["cut"])), c["nr"]).write(s)
+            eamlib.write_second_time(GULP_PairTabulation(ps, float(Fr(c["cut"])), c["nr"]), s)
         else:
             writePotentials("GULP", ps, float(Fr(c["cut"])), c["nr"], s)
         return gulp_tokens(s.getvalue(), "api")
@@ -201,7 +201,7 @@ def adp_run(c):
         dip = [mkp(a, b, f) for (a, b, f) in c["dip"]]
         quad = [mkp(a, b, f) for (a, b, f) in c["quad"]]
         s = io.StringIO()
-        ADP_EAMTabulation(pots, eams, dip, quad, float(m["cut"]), m["nr"], float(m["cutrho"]), m["nrho"]).write(s)
+        eamlib.write_second_time(ADP_EAMTabulation(pots, eams, dip, quad, float(m["cut"]), m["nr"], float(m["cutrho"]), m["nrho"]), s)
         return eamlib.setfl_tokens(s.getvalue(), fs=False, adp=True)
     if c["how"] == "cli":
         r = impl.potable_cli(adp_cfg(c))
@@ -233,10 +233,10 @@ def excel_run(c):
         pots, eams = eamlib.build_objects(m, variant="energy-subclass" if (m["nr"] + m["nrho"]) % 3 == 0 else None)
         s = io.BytesIO()
         if target == "excel":
-            Excel_PairTabulation(pots, float(m["cut"]), m["nr"]).write(s)
+            eamlib.write_second_time(Excel_PairTabulation(pots, float(m["cut"]), m["nr"]), s)
         else:
             cls = Excel_FinnisSinclair_EAMTabulation if target == "excel_eam_fs" else Excel_EAMTabulation
-            cls(pots, eams, float(m["cut"]), m["nr"], float(m["cutrho"]), m["nrho"]).write(s)
+            eamlib.write_second_time(cls(pots, eams, float(m["cut"]), m["nr"], float(m["cutrho"]), m["nrho"]), s)
         return eamlib.excel_tokens(s.getvalue())
     if target == "excel":
         cfg = "[Tabulation]\ntarget : excel\ncutoff : %s\nnr : %d\n\n[Pair]\n" % (impl.decimal_str(m["cut"]), m["nr"])
